@@ -161,6 +161,24 @@ func rootsFor(prop, tier string) []Root {
 				add("VH_C11_Decimal", p, sc)
 			}
 		}
+	case "C14":
+		for k := 2; k < 15; k++ {
+			for pos := 0; pos < 3; pos++ {
+				for lg := 0; lg < 2; lg++ {
+					if k == 14 && pos == 2 {
+						continue
+					}
+					add("VH_C14_Scalar", k, pos, lg)
+				}
+			}
+		}
+		for lg := 0; lg < 2; lg++ {
+			rs = append(rs, Root{Prop: prop, Harness: "VH_C14_Struct", Params: []int{1, lg}, MaxDecs: 3000})
+			rs = append(rs, Root{Prop: prop, Harness: "VH_C14_Struct", Params: []int{2, lg}, MaxDecs: 3000})
+			if thorough {
+				rs = append(rs, Root{Prop: prop, Harness: "VH_C14_Struct", Params: []int{3, lg}, MaxDecs: 6000})
+			}
+		}
 	case "C15":
 		for sh := 0; sh < 2; sh++ {
 			rs = append(rs, Root{Prop: prop, Harness: "VH_C15_Cache", Params: []int{sh}, MaxDecs: 2000})
